@@ -7,7 +7,10 @@ interface has no hidden shared mutable state:
   4. no const member function writes through `this` (assignment, ++/--, assigning operator, or a call of a non-const
      member function on something reached from `this`), except the accessor of the excluded trackers.
 A hit does not by itself prove a data race (a cache may be locked), so a hit makes the check UNDECIDED (exit 2) and
-names the site; it is never reported as a violation. The proof part of C20 is the frame clause of every query/circulator
+names the site. One pattern IS a data race by the C++ memory model and is reported as a violation: a non-const,
+non-thread_local, non-atomic function-local static object that a const member function writes while the function uses
+no synchronisation primitive (mutex, lock, atomic, call_once): two threads inside that read-only operation perform
+conflicting unsynchronised accesses to the same object, whatever mesh they work on. The proof part of C20 is the frame clause of every query/circulator
 obligation (state unchanged, compared field by field)."""
 import re
 from run import Ob
@@ -29,8 +32,29 @@ def rooted_at_this(e):
             continue
         return False
 
+def uses_sync(fn):
+    found = []
+    def v(n):
+        t = (n.get('type') or {}).get('qualType', '') + ' ' + (n.get('type') or {}).get('desugaredQualType', '')
+        if re.search(r'\b(mutex|lock_guard|unique_lock|scoped_lock|shared_lock|atomic|once_flag)\b', t) or (n.get('referencedDecl') or {}).get('name') in ('call_once',): found.append(1)
+    walk(fn, v)
+    return bool(found)
+
+def written(fn, var_id):
+    """some use of the variable other than a plain read (lvalue-to-rvalue) or a conversion to const"""
+    w = []
+    def v(n, parent=None):
+        for c in n.get('inner', []) or []:
+            if c.get('kind') == 'DeclRefExpr' and (c.get('referencedDecl') or {}).get('id') == var_id:
+                read = n.get('kind') == 'ImplicitCastExpr' and (n.get('castKind') == 'LValueToRValue' or (n.get('castKind') == 'NoOp' and (n.get('type') or {}).get('qualType', '').startswith('const ')))
+                if not read: w.append(1)
+            v(c, n)
+    v(fn)
+    return bool(w)
+
 def scan(ob, res, ix):
     hits = {1: [], 2: [], 3: [], 4: []}
+    races = []
     nrec = nfun = nconst = 0
     for key, rec in ix.records.items():
         if not key.startswith('OpenVolumeMesh') or not any(d in rec.get('_file', '') for d in DIRS): continue
@@ -56,7 +80,10 @@ def scan(ob, res, ix):
                 k = n.get('kind')
                 if k == 'VarDecl' and n.get('storageClass') == 'static':
                     t = n['type'].get('desugaredQualType') or n['type']['qualType']
-                    if not (t.startswith('const ') or n.get('constexpr')): hits[2].append('static local %s in %s' % (n.get('name'), where(n)))
+                    if not (t.startswith('const ') or n.get('constexpr')):
+                        hits[2].append('static local %s in %s' % (n.get('name'), where(n)))
+                        if isconst and not n.get('tls') and 'atomic' not in t and not uses_sync(d) and written(d, n['id']):
+                            races.append('const member function %s writes its function-local static %s (%s) without synchronisation' % (where(n), n.get('name'), t))
                 if k == 'CXXConstCastExpr': hits[3].append(where(n))
                 if not isconst or ALLOW_WRITER.match(qual): return
                 if k in ('BinaryOperator', 'CompoundAssignOperator') and n.get('opcode') in ASSIGN and rooted_at_this(n['inner'][0]): hits[4].append('assignment in ' + where(n))
@@ -74,7 +101,10 @@ def scan(ob, res, ix):
         res['status'] = 'undecided'; res['reason'] = 'static scan saw too little (%d classes, %d functions, %d const methods): extraction broke' % (nrec, nfun, nconst); return
     names = {1: 'no_mutable_member_besides_the_excluded_storage_trackers', 2: 'no_static_local_or_namespace_scope_mutable_object', 3: 'no_const_cast', 4: 'no_const_member_function_writes_through_this'}
     res['results'] = [('astscan.%d' % k, 'C20.astscan.%s (%d classes, %d functions, %d const member functions scanned)%s' % (names[k], nrec, nfun, nconst, ': ' + '; '.join(sorted(set(hits[k]))[:6]) if hits[k] else ''), 'FAILURE' if hits[k] else 'SUCCESS') for k in (1, 2, 3, 4)]
-    if any(hits.values()):
+    if races:
+        res['results'].append(('astscan.race', 'C20.astscan.no_unsynchronised_write_to_a_function_local_static_in_a_const_member_function: ' + '; '.join(sorted(set(races))), 'FAILURE'))
+        res['status'] = 'fail'; res['reason'] = '; '.join(sorted(set(races)))
+    elif any(hits.values()):
         res['status'] = 'undecided'; res['reason'] = 'static fact no longer holds (review needed, not a violation by itself): ' + '; '.join(x for k in hits for x in sorted(set(hits[k]))[:4])
     else:
         res['status'] = 'pass'
